@@ -21,13 +21,14 @@ func init() {
 			FEN    string
 			Moves  []string
 			ForkAt int
+			Seed   int64
 		}
 		_ = json.Unmarshal(data, &d)
 		g, err := ref.GameFromFEN(d.FEN)
 		if err != nil {
 			return false, "bad FEN"
 		}
-		b := bridge.NewBoard(d.FEN, 0)
+		b := bridge.NewBoard(d.FEN, d.Seed)
 		last := ""
 		for i, t := range d.Moves {
 			if d.ForkAt == i {
@@ -119,6 +120,8 @@ func c05Oracle(b *board.Board, g *ref.Game) (string, string) {
 	return "", ""
 }
 
+const degenerate = "[every position hashing to 0] "
+
 func lastWasMaterial(g *ref.Game) bool {
 	if len(g.Moves) == 0 {
 		return false
@@ -149,15 +152,18 @@ func officersOnly(kinds ...int8) func(g *ref.Game, m ref.Move) bool {
 
 func checkC05(c *harness.Check) {
 	mustAnchors(c)
-	c.Rule = "all PushMove sequences to depth n on a real game board with the reference game in lock-step: (a) <=3-move fortress roots, (b) knight/rook/king shuffles on the start position and on castling-rights roots (repetition with the start position; repetition separated by a rights change; castling and the clock), (c) roots set up with clock 93..99, (d) depth-2 walks from every placement of two bishops (one each / both on one side) and from K+minor/K+P material roots (captures, under-promotions), (e) the same sequences with the tail played on a Fork() taken at every depth, (f) fresh board per path (no take-back involved), (g) mate and stalemate nets in games that already carry an unclaimed repetition or reach clock 100 with the mating move. Oracle after every push: draw event now => reported drawn (five-fold named); no event in the whole game => not drawn; clock equal; move-less nodes adjudicated mate iff in check. distinct_nontrivial = distinct (root, repetition count, clock>=100, insufficient, reported reason) classes over nodes with a draw event"
+	c.Rule = "all PushMove sequences to depth n on a real game board with the reference game in lock-step: (a) <=3-move fortress roots, (b) knight/rook/king shuffles on the start position and on castling-rights roots (repetition with the start position; repetition separated by a rights change; castling and the clock), (c) roots set up with clock 93..99, incl. three where every kind of move occurs (en passant, double steps, castling, promotions with and without capture: which of them restart the clock), (d) depth-2 walks from every placement of two bishops (one each / both on one side) and from K+minor/K+P material roots (captures, under-promotions), (e) the same sequences with the tail played on a Fork() taken at every depth, (f) fresh board per path (no take-back involved), (g) mate and stalemate nets in games that already carry an unclaimed repetition or reach clock 100 with the mating move, (h) the repetition walks again (depth <= 9) on boards whose Zobrist table is the zero value - every position hashes to 0, the '2^-64 coincidence' at every step: what is reported about positions must not change. Oracle after every push: draw event now => reported drawn (five-fold named); no event in the whole game => not drawn; clock equal; move-less nodes adjudicated mate iff in check. distinct_nontrivial = distinct (root, repetition count, clock>=100, insufficient, reported reason) classes over nodes with a draw event"
 	var cc classCap
-	onPush := func(root string, forkAt int) func(b *board.Board, g *ref.Game, path []string) {
+	onPush := func(root string, forkAt int, seed int64) func(b *board.Board, g *ref.Game, path []string) {
 		return func(b *board.Board, g *ref.Game, path []string) {
 			c.Evaluations.Add(1)
 			c.States.Add(1)
 			if cls, msg := c05Oracle(b, g); msg != "" {
 				full := fmt.Sprintf("%s moves %s fork@%d", root, strings.Join(path, " "), forkAt)
-				c.Violation(cc.sig("C05/"+cls, full), msg+" at "+full, "C05/history", map[string]any{"FEN": root, "Moves": append([]string(nil), path...), "ForkAt": forkAt})
+				if seed == bridge.DegenerateSeed {
+					full += " (every position hashing to 0)"
+				}
+				c.Violation(cc.sig("C05/"+cls, full), msg+" at "+full, "C05/history", map[string]any{"FEN": root, "Moves": append([]string(nil), path...), "ForkAt": forkAt, "Seed": seed})
 			}
 			if g.DrawNow() {
 				n := g.Len() - 1
@@ -217,6 +223,12 @@ func checkC05(c *harness.Check) {
 		return m.Piece == ref.N && (m.From == 6 || m.To == 6 || m.From == 62 || m.To == 62)
 	}, -1, false, "e.p. target distinguishes the first occurrence"})
 
+	// every kind of move and the clock: en passant (a capture that is not of type Capture), double
+	// steps, castling (the one non-pawn, non-capturing special move), promotions with and without capture
+	add(c05job{"4k3/8/8/3pP3/8/8/8/4K2R w K d6 97 60", c.Pick(3, 4), nil, -1, false, "en passant / castling and a clock near the limit"})
+	add(c05job{"4k3/3p4/8/4P3/8/8/8/R3K3 b Q - 96 60", c.Pick(4, 5), nil, -1, false, "double step, then en passant, clock near the limit"})
+	add(c05job{"1n2k3/P7/8/8/8/8/7P/R3K3 w Q - 97 60", c.Pick(3, 4), nil, -1, false, "promotions, capture-promotions, double step, castling; clock near the limit"})
+
 	// mate and stalemate reached in a game that already carries a draw event (an unclaimed
 	// repetition earlier on, the clock reaching 100 with the mating move itself): adjudication
 	// must still say mate / stalemate
@@ -275,9 +287,24 @@ func checkC05(c *harness.Check) {
 		w     *HistWalk
 		depth int
 	}
+	// the walks whose subject is repetition, once more on boards whose hash table maps every position
+	// to 0: a draw by repetition is a statement about positions, never about hashes
+	for _, j := range append([]c05job(nil), jobs...) {
+		if strings.Contains(j.what, "shuffle") || strings.Contains(j.what, "repeat") || strings.Contains(j.what, "repetition") || strings.Contains(j.what, "first occurrence") || strings.Contains(j.what, "free pawns") {
+			j.what = degenerate + j.what
+			if j.depth > 9 {
+				j.depth = 9
+			}
+			add(j)
+		}
+	}
 	var subs []sub
 	for _, j := range jobs {
-		w := &HistWalk{C: c, Root: j.fen, Filter: j.filter, ForkAt: j.forkAt, NoPop: j.noPop, OnPush: onPush(j.fen, j.forkAt)}
+		seed := int64(0)
+		if strings.HasPrefix(j.what, degenerate) {
+			seed = bridge.DegenerateSeed
+		}
+		w := &HistWalk{C: c, Root: j.fen, Seed: seed, Filter: j.filter, ForkAt: j.forkAt, NoPop: j.noPop, OnPush: onPush(j.fen, j.forkAt, seed)}
 		if j.depth >= 5 {
 			for _, sw := range w.Split(3) {
 				subs = append(subs, sub{sw, j.depth})
